@@ -68,6 +68,9 @@ func (f *faults) hitBase() bool {
 type fakeDevice struct {
 	fl   *faults
 	data []byte
+	// point, if set (Engine A), is called before every write acts: device
+	// writes are scheduling points.
+	point func(label string)
 }
 
 func (d *fakeDevice) ReadAt(p []byte, off int64) (int, error) {
@@ -89,6 +92,9 @@ func (d *fakeDevice) ReadAt(p []byte, off int64) (int, error) {
 }
 
 func (d *fakeDevice) WriteAt(p []byte, off int64) (int, error) {
+	if d.point != nil {
+		d.point("dev.WriteAt")
+	}
 	if d.fl.devWriteIn > 0 {
 		d.fl.devWriteIn--
 		if d.fl.devWriteIn == 0 {
